@@ -22,7 +22,7 @@ use rusqlite::TransactionBehavior;
 use std::cell::RefCell;
 use std::collections::HashSet;
 use std::env;
-use std::io;
+use std::io::{self, Write};
 
 use redo::logs::LogBuilder;
 use redo::{
@@ -65,12 +65,14 @@ pub(crate) fn run() -> Result<(), Error> {
     for mut f in targets {
         if !redo::is_dirty(&mut ptx, &mut f, &mut cb)?.is_clean() {
             let p = redo::relpath(env2.base().join(f.name()), &cwd)?;
-            println!(
-                "{}",
-                p.as_os_str()
-                    .to_str()
-                    .ok_or(anyhow!("could not get filename as UTF-8"))?
-            );
+            // (a listing nobody reads any more -- `| head -1` -- just ends)
+            let line = p
+                .as_os_str()
+                .to_str()
+                .ok_or(anyhow!("could not get filename as UTF-8"))?;
+            if writeln!(io::stdout(), "{}", line).is_err() {
+                return Ok(());
+            }
         }
     }
     Ok(())
